@@ -101,6 +101,14 @@ func collect(cur protoreflect.Message, path Path, depth int, out *[]Deviation) {
 			n := cur.Get(fd).List().Len()
 			add(fd, "append", "dev", func(m protoreflect.Message) { SetFieldDepth(m, fd, 7, "D", 1) })
 			if n > 0 {
+				add(fd, "duplicate-elem0", "dev", func(m protoreflect.Message) {
+					l := m.Mutable(fd).List()
+					v := l.Get(0)
+					if fd.Kind() == protoreflect.MessageKind {
+						v = protoreflect.ValueOfMessage(proto.Clone(v.Message().Interface()).ProtoReflect())
+					}
+					l.Append(v)
+				})
 				add(fd, "drop-last", "dev", func(m protoreflect.Message) { l := m.Mutable(fd).List(); l.Truncate(l.Len() - 1) })
 				add(fd, "clear", "dev", func(m protoreflect.Message) { m.Clear(fd) })
 				if fd.Kind() != protoreflect.MessageKind {
@@ -155,6 +163,28 @@ func collect(cur protoreflect.Message, path Path, depth int, out *[]Deviation) {
 				ts.Set(nf, protoreflect.ValueOfInt32(int32(ts.Get(nf).Int())+1))
 			})
 			add(fd, "clear", "dev", func(m protoreflect.Message) { m.Clear(fd) })
+			{
+				// +200ms / +500ms / +999ms: content changes iff the second changes (dates are compared to the second)
+				ts := cur.Get(fd).Message()
+				nanos := ts.Get(ts.Descriptor().Fields().ByName("nanos")).Int()
+				for _, ms := range []int64{200, 500, 999} {
+					ms := ms
+					kind := "subsec"
+					if nanos+ms*1_000_000 >= 1_000_000_000 {
+						kind = "dev"
+					}
+					add(fd, fmt.Sprintf("plus-%dms", ms), kind, func(m protoreflect.Message) {
+						t := m.Mutable(fd).Message()
+						sf, nf := t.Descriptor().Fields().ByName("seconds"), t.Descriptor().Fields().ByName("nanos")
+						n := t.Get(nf).Int() + ms*1_000_000
+						if n >= 1_000_000_000 {
+							n -= 1_000_000_000
+							t.Set(sf, protoreflect.ValueOfInt64(t.Get(sf).Int()+1))
+						}
+						t.Set(nf, protoreflect.ValueOfInt32(int32(n)))
+					})
+				}
+			}
 		case fd.Kind() == protoreflect.MessageKind:
 			if cur.Has(fd) {
 				add(fd, "clear", "dev", func(m protoreflect.Message) { m.Clear(fd) })
